@@ -327,6 +327,7 @@ structure Scan where
   n : Nat
   mantExp : Int
   expExp : Int
+deriving Repr, DecidableEq
 
 /-- everything `ParseFloat` decides on bytes alone; `len = 0` means "no number" -/
 def scan (b : List Nat) : Scan :=
@@ -501,6 +502,14 @@ def closesOK {α : Type} [DecidableEq α] : (α × α) → List (Cmd α) → Boo
   | st, .close x y :: cs => (x, y) == st && closesOK st cs
   | st, _ :: cs => closesOK st cs
 
+/-- … and a Close is followed by a MoveTo or by nothing (the builder inserts that MoveTo itself) -/
+def moveAfterClose {α : Type} : List (Cmd α) → Bool
+  | [] => true
+  | .close _ _ :: .move x y :: r => moveAfterClose (.move x y :: r)
+  | .close _ _ :: [] => true
+  | .close _ _ :: _ :: _ => false
+  | _ :: r => moveAfterClose r
+
 def noArcs {α : Type} : List (Cmd α) → Bool
   | [] => true
   | .arc _ _ _ _ _ _ _ :: _ => false
@@ -567,6 +576,9 @@ def svgExec {α : Type} (add : α → α → α) (refl : α → α → α) (s : 
     emit (.arc s.cur.1 s.cur.2 rx ry rot l sw p.1 p.2) p none none c
   | _, _ => none
 
+/-- the last executed command was a closepath -/
+def wasClose {α : Type} (s : SvgSt α) : Bool := s.cmd == some 'z' || s.cmd == some 'Z'
+
 /-- feed one token -/
 def svgTok {α : Type} (add : α → α → α) (refl : α → α → α) (s : SvgSt α) (t : Tok α) : Option (SvgSt α) :=
   match t with
@@ -575,8 +587,13 @@ def svgTok {α : Type} (add : α → α → α) (refl : α → α → α) (s : S
     else match svgArity c with
       | none => none
       | some 0 => svgExec add refl s c []
-      | some _ => if s.out = [] ∧ c.toUpper ≠ 'M' then none   -- path data must start with a moveto
-                  else some { s with cmd := some c, args := [] }
+      | some _ =>
+        if s.out = [] ∧ c.toUpper ≠ 'M' then none   -- path data must start with a moveto
+        else if wasClose s ∧ c.toUpper ≠ 'M' then
+          -- SVG 1.1 §8.3.3: "If a closepath is followed immediately by any other command, then the
+          -- next subpath starts at the same initial point as the current subpath": implicit moveto
+          some { s with cmd := some c, args := [], out := .move s.cur.1 s.cur.2 :: s.out }
+        else some { s with cmd := some c, args := [] }
   | t =>
     match s.cmd with
     | none => none
